@@ -232,7 +232,11 @@ class ECDSAKey(PKey):
             return False
         sig = msg.get_binary()
         sigR, sigS = self._sigdecode(sig)
-        signature = encode_dss_signature(sigR, sigS)
+        try:
+            signature = encode_dss_signature(sigR, sigS)
+        except ValueError:
+            # negative r or s cannot be DER-encoded: not a valid signature
+            return False
 
         try:
             self.verifying_key.verify(
